@@ -69,6 +69,10 @@ def run(tier, seed, opens):
             else:
                 fail('seed', {'language': lang, 'sentence': sent, 'passphrase': pw}, got.hex(), bip39.seed(sent, pw).hex())
         ws = sent.split(' ')
+        if any(w not in wl for w in ws):
+            cases += 1
+            fail('sentence of a used object', {'language': lang, 'entropy': ent.hex()}, sent, 'words of the %s list' % lang)
+            continue
         idx = [wl.index(w) for w in ws]
         for _ in range(n_subst):
             pos = rng.randrange(len(ws))
@@ -97,6 +101,40 @@ def run(tier, seed, opens):
             fail('unknown word', {'language': lang}, 'accepted', 'rejected')
         except Exception:
             ok += 1
+        # a valid sentence of ANOTHER list (with at least one word this list does not have) is not a sentence of this object's list: to_entropy and
+        # to_seed reject it - and whatever they did, the object still generates sentences of its OWN list afterwards
+        for other in [l for l in langs if l != lang][:: (3 if tier == 'quick' else 1)]:
+            owl = [w.strip() for w in open(os.path.join(wl_dir, other + '.txt'), encoding='utf-8').readlines()]
+            e2 = bytes(rng.getrandbits(8) for _ in range(16))
+            foreign = ' '.join(owl[i] for i in bip39.indices(e2))
+            if all(w in wl for w in foreign.split(' ')):
+                continue
+            m2 = Mnemonic(lang)
+            for call in ('to_entropy', 'to_seed'):
+                cases += 1
+                try:
+                    r = getattr(m2, call)(foreign)
+                    fail('sentence of another word list', {'language': lang, 'sentence_language': other, 'sentence': foreign, 'call': call},
+                         'accepted: %s' % (r.hex() if isinstance(r, bytes) else r), 'rejected')
+                except Exception:
+                    ok += 1
+            for prior in ('sanitize_mnemonic', None):
+                cases += 1
+                try:
+                    if prior:
+                        try:
+                            m2.sanitize_mnemonic(foreign)
+                        except Exception:
+                            pass
+                    e3 = bytes(rng.getrandbits(8) for _ in range(16))
+                    got = m2.to_mnemonic(e3, check_on_curve=False)
+                    want = unicodedata.normalize('NFKD', ' '.join(wl[i] for i in bip39.indices(e3)))
+                    if got == want:
+                        ok += 1
+                    else:
+                        fail('generation after the object has seen a sentence of another list', {'language': lang, 'sentence_language': other, 'entropy': e3.hex()}, got, want)
+                except Exception as e:
+                    fail('generation after the object has seen a sentence of another list', {'language': lang, 'sentence_language': other}, 'raises %r' % e, 'BIP39 sentence')
     return {'contract': 'Mnemonic[bounded]', 'target': 'bitcoinlib.mnemonic.Mnemonic.to_mnemonic / to_entropy / to_seed, wordlists', 'status': 'ok', 'props': ['C14'],
             'bounded': '9 word lists x 5 entropy sizes x (%d special + %d random entropies); %d single-word substitutions per language' % (4, n_ent, n_subst),
             'paths': cases, 'obligations': [{'name': 'Mnemonic#bounded-vs-bip39-reference', 'kind': 'bounded', 'paths': cases, 'discharged': ok,
